@@ -81,18 +81,20 @@ inline std::vector<CtorOp> ctor_ops(bool wide) {
     q120_vec_mat1col_product_bbc_ref(pc, 5, (q120b*)r.p, (q120b*)x.p, (q120c*)y.p); h = ct_hash(r, h);
     q120_delete_vec_mat1col_product_baa_precomp(pa); q120_delete_vec_mat1col_product_bbb_precomp(pb); q120_delete_vec_mat1col_product_bbc_precomp(pc);
     return h; });
-  add("two modules of one dimension (both types), the first deleted before the second is used", [] {
+  add("two modules of one dimension and one of another (both types), the first deleted before the second is used", [] {
     uint64_t h = 0xcbf29ce484222325ull;
     for (int t = 0; t < 2; ++t) {
       const uint64_t N = 16;
       MODULE* m1 = new_module_info(N, t ? NTT120 : FFT64); MODULE* m = new_module_info(N, t ? NTT120 : FFT64);
+      MODULE* m3 = new_module_info(2 * N, t ? NTT120 : FFT64);   // created while the two others are alive
       delete_module_info(m1);
+      MODULE* m4 = new_module_info(4 * N, t ? NTT120 : FFT64);   // allocations after the delete (may recycle what was freed)
       GBuf a(N * 8, 8), d((t ? 32 : 8) * N, 16), b((t ? 16 : 8) * N, 24), tmp(vec_znx_idft_tmp_bytes(m) + 64, 0);
       for (uint64_t i = 0; i < N; ++i) a.as<int64_t>()[i] = small_val(i + 3, 1 << 20);
       vec_znx_dft(m, (VEC_ZNX_DFT*)d.p, 1, a.as<int64_t>(), 1, N);
       vec_znx_idft(m, (VEC_ZNX_BIG*)b.p, 1, (VEC_ZNX_DFT*)d.p, 1, tmp.p);
       h = ct_hash(d, ct_hash(b, h));
-      delete_module_info(m);
+      delete_module_info(m); delete_module_info(m3); delete_module_info(m4);
     }
     return h; });
   if (wide) for (uint64_t N : {8, 64, 1024}) {
